@@ -195,6 +195,9 @@ def make_case(doc, dl, acc):
             'meta': {'file': doc.entry['file'], 'delims': list(dl)}}
 
 
+VALUE_FAULTS = ['too-long', 'too-short', 'wrong-char-class', 'bad-date', 'bad-time', 'required-removed', 'extra-component', 'extra-element']
+
+
 def run_entry(entry, n, seed, acc, tier):
     from hypothesis import strategies as st
 
@@ -226,8 +229,22 @@ def run_entry(entry, n, seed, acc, tier):
                 if res is not None and (loc[0], loc[1]) not in notused:
                     doc = res[0]
                     notused.append((loc[0], loc[1]))
+        # "every segment is located in its map" does not ask for valid values: defects that leave the matching of segments
+        # alone (length, character class, calendar, a required element left empty, a surplus component) must round-trip too
+        vfaults = []
+        if ch.chance(.35):
+            for _ in range(ch.integer(1, 3)):
+                kind = ch.choice(VALUE_FAULTS)
+                cands = [x for x in faults.candidates(doc, kind) if (x[0], x[1]) not in notused]
+                if not cands:
+                    continue
+                res = faults.inject(doc, kind, cands[ch.integer(0, len(cands) - 1)], ch.seed())
+                if res is not None:
+                    doc = res[0]
+                    vfaults.append(kind)
         c = make_case(doc, dl, acc)
         c['notused'] = [list(x) for x in notused]
+        c['meta']['value_faults'] = vfaults
         if ch.chance(.25):
             c['simple_dtd'] = 'http://www.example.org/dtd/x12simple.dtd'     # documented run-time option: adds a DOCTYPE
         return c
